@@ -3,7 +3,7 @@ import math
 
 import numpy as np
 
-from .. import common as C, gen, scen, bkd, trk
+from .. import common as C, gen, scen, bkd, trk, translators
 from ..runner import Check
 from . import bkgen, drvcommon as D
 
@@ -146,7 +146,7 @@ def backend_runs(r, quick):
 
 
 def run():
-    chk = Check("C19", props_modules=["GFO.Props.C19", "GFO.Props.LocalRuns"])
+    chk = Check("C19", props_modules=["GFO.Props.C19", "GFO.Props.LocalRuns", "GFO.Gen.TrackerGenCheck"], gen_steps=(translators.gen_tracker,))
     chk.build_and_audit()
     r = C.rng("C19")
     quick = C.tier() != "thorough"
